@@ -371,6 +371,8 @@ def iterable_message(valid: list[Any] | None) -> str:
 
 def is_uuid(value: str) -> bool:
     """Check if a string is UUID compliant."""
+    if not isinstance(value, (str, UUID)):
+        return False
     try:
         UUID(str(value))
         return True
